@@ -109,6 +109,34 @@ var c20Helpers = []c20Helper{
 		return ""
 	}},
 	{"ItemsEqual(x,x)", []string{"list", "prop"}, func(it ap.Item) string { _ = ap.ItemsEqual(it, it); return "" }},
+	// a list that holds the nil-like item against lists of the other kinds (an IRI list, a list behind a pointer, each of the same
+	// length, shorter and longer), bare and as the value of an item property, in both orders: a comparison, nothing more
+	{"ItemsEqual(list,other lists)", []string{"top"}, func(it ap.Item) string {
+		a, b := ap.IRI("https://example.com/members/a"), ap.IRI("https://example.com/members/b")
+		for _, l := range []ap.ItemCollection{{it}, {it, a}, {a, it}, {a, it, b}, {it, it}} {
+			for n := 0; n <= len(l)+1; n++ {
+				iris := ap.IRIs{}
+				for k := 0; k < n; k++ {
+					iris = append(iris, ap.IRI(fmt.Sprintf("https://example.com/members/%c", 'a'+k)))
+				}
+				items, _ := ap.ToItemCollection(iris)
+				lp := l
+				for _, other := range []ap.Item{iris, &iris, *items, items} {
+					for _, mine := range []ap.Item{l, &lp} {
+						_ = ap.ItemsEqual(mine, other)
+						_ = ap.ItemsEqual(other, mine)
+						x := &ap.Object{ID: "https://example.com/holder", Type: ap.NoteType, Attachment: mine, Tag: l}
+						y := &ap.Object{ID: "https://example.com/holder", Type: ap.NoteType, Attachment: other, Tag: *items}
+						_ = ap.ItemsEqual(x, y)
+						_ = ap.ItemsEqual(y, x)
+						_ = l.Contains(other)
+						_ = ap.ItemCollection{other}.Contains(mine)
+					}
+				}
+			}
+		}
+		return ""
+	}},
 	// equality treats the nil-like item as nil in either operand: the holder equals its twin that holds the untyped nil in the same
 	// places (both orders), and comparing it with a twin that holds real values there is just a comparison, in both orders
 	{"ItemsEqual(x,twins)", []string{"prop"}, func(it ap.Item) string {
